@@ -19,6 +19,10 @@
 (*   uniform   the source is uniformly coloured                            *)
 (*   exp       rows of cells <<ur,ug,ub,ua, lr,lg,lb,la>>: RGB a pixel      *)
 (*             shows IF it is opaque, and its alpha (0..255)                *)
+(*   srcb      <<w, h, mode>> of the image as handed over (a FRESH copy of  *)
+(*             the source at the frame rendered)                            *)
+(*   srca      <<w, h, mode>> of the caller's PIL image after the render    *)
+(*             (rendering must not reconfigure the caller's image)          *)
 (*   toks, gfx the lexed output                                            *)
 (*                                                                         *)
 (* Transparency classes of a pixel with alpha a under threshold t=num/den  *)
@@ -96,6 +100,8 @@ EndClause(tr, S) ==
            IN [v |-> c.v, row |-> p[1], col |-> p[2], half |-> c.half]
     ELSE IF tr.uniform /\ ~Uniform(tr, S)
       THEN [OkRec EXCEPT !.v = "uniform: a uniformly coloured image is not rendered uniformly"]
+    ELSE IF tr.srca # tr.srcb
+      THEN [OkRec EXCEPT !.v = "source-mutated: the caller's PIL image changed size or mode during the render"]
     ELSE OkRec
 
 Init ==
